@@ -42,10 +42,10 @@ Proof. reflexivity. Qed.
 
 Lemma step_kind : forall p h o p' o', step p h o = Some (p', o') -> is_identity p' = is_identity p.
 Proof.
-  intros [st|st|cfg| |] h o p' o' H; simpl in H.
+  intros [st|st| | |] h o p' o' H; simpl in H.
   - destruct (sh_step st h o) as [[st' o1]|]; inversion H; reflexivity.
   - destruct (ex_step st h o) as [[st' o1]|]; inversion H; reflexivity.
-  - destruct (fr_step cfg h o); inversion H; reflexivity.
+  - destruct (fr_step h o); inversion H; reflexivity.
   - inversion H; reflexivity.
   - inversion H; reflexivity.
 Qed.
@@ -522,23 +522,20 @@ Proof.
   intros acc z Hz. apply Hf. right; exact Hz.
 Qed.
 
-Definition fr_from (cfg : fr_cfg) (i : imp) : string :=
-  if fr_strip_dots cfg then lstrip_dots (i_module i) else src_of (i_level i) (i_module i).
-
-Lemma fr_imported_lookup : forall cfg imports n from,
-  lookup n (fr_imported cfg imports) = Some from ->
-  exists i, In i imports /\ In n (i_names i) /\ local_import i = true /\ from = fr_from cfg i.
+Lemma fr_imported_lookup : forall imports n from,
+  lookup n (fr_imported imports) = Some from ->
+  exists i, In i imports /\ In n (i_names i) /\ local_import i = true /\ from = lstrip_dots (i_module i).
 Proof.
-  intros cfg imports n from. unfold fr_imported.
+  intros imports n from. unfold fr_imported.
   apply (fold_left_inv _ _ (fun acc => lookup n acc = Some from ->
-           exists i, In i imports /\ In n (i_names i) /\ local_import i = true /\ from = fr_from cfg i)).
+           exists i, In i imports /\ In n (i_names i) /\ local_import i = true /\ from = lstrip_dots (i_module i))).
   - discriminate.
   - intros acc i Hi Hacc.
     destruct (negb (Nat.eqb (i_level i) 1) && negb (starts_with_dot (i_module i)))%bool eqn:El; [exact Hacc|].
     assert (Hloc : local_import i = true).
     { unfold local_import. destruct (Nat.eqb (i_level i) 1); destruct (starts_with_dot (i_module i)); simpl in *; congruence. }
     apply (fold_left_inv _ _ (fun acc2 => lookup n acc2 = Some from ->
-           exists i0, In i0 imports /\ In n (i_names i0) /\ local_import i0 = true /\ from = fr_from cfg i0)).
+           exists i0, In i0 imports /\ In n (i_names i0) /\ local_import i0 = true /\ from = lstrip_dots (i_module i0))).
     + exact Hacc.
     + intros acc2 k Hk Hacc2 Hl. rewrite lookup_dict_set in Hl.
       destruct (String.eqb n k) eqn:E; [|apply Hacc2; exact Hl].
@@ -549,28 +546,305 @@ Qed.
 Lemma lstrip_no_dot : forall s, starts_with_dot s = false -> lstrip_dots s = s.
 Proof. intros [|c r] H; [reflexivity|]. simpl in *. destruct c as [[] [] [] [] [] [] [] []]; try reflexivity; discriminate. Qed.
 
-(* the repaired plugin: the import it defers names the module the unplugged client imported the name from *)
-Theorem forward_refs_sources_fixed : forall imports n from,
-  lookup n (fr_imported fr_fixed imports) = Some from ->
+(* the import the plugin defers names the module the unplugged client imported the name from: a level-1 import
+   of module m is re-emitted as (level 1, m) *)
+Theorem forward_refs_sources : forall imports n from,
+  lookup n (fr_imported imports) = Some from ->
   exists i, In i imports /\ In n (i_names i) /\
             (i_level i = 1 -> starts_with_dot (i_module i) = false -> src_of 1 from = src_of (i_level i) (i_module i)).
 Proof.
-  intros imports n from H. destruct (fr_imported_lookup _ _ _ _ H) as [i [Hi [Hn [_ Hf]]]].
-  exists i. repeat split; auto. intros Hl Hd. subst from. unfold fr_from; simpl.
+  intros imports n from H. destruct (fr_imported_lookup _ _ _ H) as [i [Hi [Hn [_ Hf]]]].
+  exists i. repeat split; auto. intros Hl Hd. subst from.
   rewrite Hl, (lstrip_no_dot _ Hd). reflexivity.
 Qed.
 
-Lemma string_app_length : forall a b, String.length (a ++ b)%string = String.length a + String.length b.
-Proof. induction a as [|c r IH]; intros b; simpl; [reflexivity|]. rewrite IH. reflexivity. Qed.
-
-(* the code as found: EVERY deferred import of a level-1 import points somewhere else (one dot too many) *)
-Theorem forward_refs_sources_refuted : forall imports n from,
-  lookup n (fr_imported fr_current imports) = Some from ->
+(* ... and also for the level-0 form `from .m import X` that ShorterResults inserts *)
+Theorem forward_refs_sources_dotted : forall imports n from,
+  lookup n (fr_imported imports) = Some from ->
   exists i, In i imports /\ In n (i_names i) /\
-            (i_level i = 1 -> src_of 1 from <> src_of (i_level i) (i_module i)).
+            (forall m, i_level i = 0 -> i_module i = ("." ++ m)%string -> starts_with_dot m = false ->
+                       src_of 1 from = src_of (i_level i) (i_module i)).
 Proof.
-  intros imports n from H. destruct (fr_imported_lookup _ _ _ _ H) as [i [Hi [Hn [_ Hf]]]].
-  exists i. repeat split; auto. intros Hl Heq. subst from. unfold fr_from in Heq; simpl in Heq.
-  rewrite Hl in Heq. apply (f_equal String.length) in Heq. unfold src_of in Heq.
-  rewrite !string_app_length in Heq. simpl in Heq. lia.
+  intros imports n from H. destruct (fr_imported_lookup _ _ _ H) as [i [Hi [Hn [_ Hf]]]].
+  exists i. repeat split; auto. intros m Hl Hm Hd. subst from. rewrite Hl, Hm. simpl.
+  rewrite (lstrip_no_dot _ Hd). reflexivity.
+Qed.
+
+(* ================================================================== 10. composition through the pipeline *)
+Definition estates (ps : list plugin) : list ex_state :=
+  flat_map (fun p => match p with PExtract st => [st] | _ => [] end) ps.
+
+Definition set_written (st : ex_state) : ex_state :=
+  {| ex_module := ex_module st; ex_gqls := ex_gqls st; ex_vars := ex_vars st; ex_written := true |}.
+
+Definition plain_hook (h : hook) : bool :=
+  match h with HOpStr _ => false | HInitModule => false | _ => true end.
+
+Lemma step_estates_plain : forall p h o p' o', plain_hook h = true -> step p h o = Some (p', o') ->
+  estates [p'] = estates [p].
+Proof.
+  intros [st|st| | |] h o p' o' Hh H; simpl in H.
+  - destruct (sh_step st h o) as [[st' o1]|]; inversion H; reflexivity.
+  - destruct h; try discriminate; destruct o; simpl in H; try (inversion H; reflexivity).
+    + destruct (ex_method st opname kind m); inversion H; reflexivity.
+  - destruct (fr_step h o); inversion H; reflexivity.
+  - inversion H; reflexivity.
+  - inversion H; reflexivity.
+Qed.
+
+Lemma estates_cons : forall p r, estates (p :: r) = estates [p] ++ estates r.
+Proof. intros. unfold estates. simpl. rewrite app_nil_r. reflexivity. Qed.
+
+Lemma apply_estates_plain : forall ps h o ps' o', plain_hook h = true -> apply_hook ps h o = Some (ps', o') ->
+  estates ps' = estates ps.
+Proof.
+  induction ps as [|p r IH]; intros h o ps' o' Hh H; simpl in H.
+  - inversion H; reflexivity.
+  - destruct (step p h o) as [[p1 o1]|] eqn:Es; [|discriminate].
+    destruct (apply_hook r h o1) as [[r' o2]|] eqn:Er; [|discriminate]. inversion H; subst.
+    rewrite (estates_cons p1), (estates_cons p), (step_estates_plain _ _ _ _ _ Hh Es), (IH _ _ _ _ Hh Er). reflexivity.
+Qed.
+
+Lemma apply_opstr : forall ps n s ps' o', apply_hook ps (HOpStr n) (OOpStr s) = Some (ps', o') ->
+  o' = OOpStr s /\ estates ps' = map (fun st => ex_record st (n, s)) (estates ps).
+Proof.
+  induction ps as [|p r IH]; intros n s ps' o' H; simpl in H.
+  - inversion H; auto.
+  - destruct (step p (HOpStr n) (OOpStr s)) as [[p1 o1]|] eqn:Es; [|discriminate].
+    destruct (apply_hook r (HOpStr n) o1) as [[r' o2]|] eqn:Er; [|discriminate]. inversion H; subst.
+    assert (o1 = OOpStr s /\ estates [p1] = map (fun st => ex_record st (n, s)) (estates [p])) as [-> He].
+    { destruct p; simpl in Es; inversion Es; subst; auto. }
+    destruct (IH _ _ _ _ Er) as [-> Hr]. split; [reflexivity|].
+    rewrite (estates_cons p1), (estates_cons p), map_app, He, Hr. reflexivity.
+Qed.
+
+Lemma apply_init : forall ps i ps' o', apply_hook ps HInitModule (OInit i) = Some (ps', o') ->
+  (exists i', o' = OInit i') /\ estates ps' = map set_written (estates ps).
+Proof.
+  induction ps as [|p r IH]; intros i ps' o' H; simpl in H.
+  - inversion H; eauto.
+  - destruct (step p HInitModule (OInit i)) as [[p1 o1]|] eqn:Es; [|discriminate].
+    destruct (apply_hook r HInitModule o1) as [[r' o2]|] eqn:Er; [|discriminate]. inversion H; subst.
+    assert ((exists i1, o1 = OInit i1) /\ estates [p1] = map set_written (estates [p])) as [[i1 ->] He].
+    { destruct p; simpl in Es; try (inversion Es; subst; eauto; fail).
+      destruct i; inversion Es; subst; eauto. }
+    destruct (IH _ _ _ Er) as [Ho Hr]. split; [exact Ho|].
+    rewrite (estates_cons p1), (estates_cons p), map_app, He, Hr. reflexivity.
+Qed.
+
+Lemma apply_method_noext : forall ps n k m ps' o', estates ps = [] ->
+  apply_hook ps (HClientMethod n k) (OMethod m) = Some (ps', o') -> o' = OMethod m.
+Proof.
+  induction ps as [|p r IH]; intros n k m ps' o' He H; simpl in H.
+  - inversion H; reflexivity.
+  - rewrite estates_cons in He. apply app_eq_nil in He. destruct He as [Hp Hr].
+    destruct (step p (HClientMethod n k) (OMethod m)) as [[p1 o1]|] eqn:Es; [|discriminate].
+    destruct (apply_hook r (HClientMethod n k) o1) as [[r' o2]|] eqn:Er; [|discriminate]. inversion H; subst.
+    assert (o1 = OMethod m) as ->.
+    { destruct p; simpl in Es; try (inversion Es; reflexivity). discriminate Hp. }
+    eapply IH; eauto.
+Qed.
+
+Lemma apply_method : forall ps n k m ps' o',
+  List.length (estates ps) <= 1 ->
+  apply_hook ps (HClientMethod n k) (OMethod m) = Some (ps', o') ->
+  exists m', o' = OMethod m' /\
+             ((estates ps = [] /\ m' = m) \/ (exists st, estates ps = [st] /\ ex_method st n k m = Some m')).
+Proof.
+  induction ps as [|p r IH]; intros n k m ps' o' Hl H; simpl in H.
+  - inversion H; subst. exists m. split; [reflexivity|]. left. split; reflexivity.
+  - destruct (step p (HClientMethod n k) (OMethod m)) as [[p1 o1]|] eqn:Es; [|discriminate].
+    destruct (apply_hook r (HClientMethod n k) o1) as [[r' o2]|] eqn:Er; [|discriminate]. inversion H; subst.
+    rewrite estates_cons in *.
+    destruct p as [st|st| | |]; simpl in Es;
+      try (inversion Es; subst; simpl in *; eapply IH; eauto; fail).
+    destruct (ex_method st n k m) as [m1|] eqn:Em; [|discriminate]. inversion Es; subst.
+    simpl in Hl. assert (Hr : estates r = []) by (destruct (estates r); [reflexivity|simpl in Hl; lia]).
+    rewrite (apply_method_noext _ _ _ _ _ _ Hr Er). exists m1. split; [reflexivity|].
+    right. exists st. simpl. rewrite Hr. split; [reflexivity|exact Em].
+Qed.
+
+Lemma sh_methods_requests : forall ms st st' ms', sh_methods st ms = Some (st', ms') ->
+  forall C, map (request_of C) ms' = map (request_of C) ms.
+Proof.
+  induction ms as [|m r IH]; intros st st' ms' H C; simpl in H.
+  - inversion H; reflexivity.
+  - destruct (sh_method st m) as [[st1 m1]|] eqn:Em; [|discriminate].
+    destruct (sh_methods st1 r) as [[st2 r2]|] eqn:Er; [|discriminate]. inversion H; subst. simpl.
+    rewrite (shorter_request_unchanged _ _ _ _ C Em), (IH _ _ _ Er C). reflexivity.
+Qed.
+
+Lemma fr_methods_requests : forall ic ms ms' a b, fr_methods ic ms = Some (ms', a, b) ->
+  forall C, map (request_of C) ms' = map (request_of C) ms.
+Proof.
+  induction ms as [|m r IH]; intros ms' a b H C; simpl in H.
+  - inversion H; reflexivity.
+  - destruct (fr_method ic m) as [[[m1 a1] b1]|] eqn:Em; [|discriminate].
+    destruct (fr_methods ic r) as [[[r2 a2] b2]|] eqn:Er; [|discriminate]. inversion H; subst. simpl.
+    rewrite (forward_refs_request_unchanged _ _ _ _ _ C Em), (IH _ _ _ eq_refl C). reflexivity.
+Qed.
+
+Lemma step_client_requests : forall p c p' o', step p HClientModule (OClient c) = Some (p', o') ->
+  exists c', o' = OClient c' /\ forall C, map (request_of C) (cm_methods c') = map (request_of C) (cm_methods c).
+Proof.
+  intros [st|st| | |] c p' o' H; simpl in H.
+  - unfold sh_client in H. destruct (sh_methods st (cm_methods c)) as [[st1 ms]|] eqn:Em; [|discriminate].
+    destruct (sh_extend_imports (cm_imports c) (sh_extended st1)) as [imports1 rest]. inversion H; subst.
+    eexists. split; [reflexivity|]. intros C. simpl. eapply sh_methods_requests; eauto.
+  - inversion H; subst. eexists. split; [reflexivity|]. reflexivity.
+  - unfold fr_client in H.
+    destruct (fr_methods (fr_imported (cm_imports c)) (cm_methods c)) as [[[ms a] b]|] eqn:Em; [|discriminate].
+    destruct (dedup a ++ b) eqn:Ed.
+    + inversion H; subst. eexists. split; [reflexivity|]. intros C. simpl. eapply fr_methods_requests; eauto.
+    + destruct (fr_tc_imports (fr_imported (cm_imports c)) (dedup a)); [|discriminate]. inversion H; subst.
+      eexists. split; [reflexivity|]. intros C. simpl. eapply fr_methods_requests; eauto.
+  - inversion H; subst. eexists. split; [reflexivity|]. reflexivity.
+  - inversion H; subst. eexists. split; [reflexivity|]. reflexivity.
+Qed.
+
+Lemma apply_client_requests : forall ps c ps' o', apply_hook ps HClientModule (OClient c) = Some (ps', o') ->
+  exists c', o' = OClient c' /\ forall C, map (request_of C) (cm_methods c') = map (request_of C) (cm_methods c).
+Proof.
+  induction ps as [|p r IH]; intros c ps' o' H; simpl in H.
+  - inversion H; subst. eexists. split; reflexivity.
+  - destruct (step p HClientModule (OClient c)) as [[p1 o1]|] eqn:Es; [|discriminate].
+    destruct (apply_hook r HClientModule o1) as [[r' o2]|] eqn:Er; [|discriminate]. inversion H; subst.
+    destruct (step_client_requests _ _ _ _ Es) as [c1 [-> H1]].
+    destruct (IH _ _ _ Er) as [c2 [-> H2]]. exists c2. split; [reflexivity|].
+    intros C. rewrite H2, H1. reflexivity.
+Qed.
+
+Definition bE (l : list ex_state) : bool := match l with [] => false | _ => true end.
+Lemma bE_map : forall f l, bE (map f l) = bE l.
+Proof. intros f [|x r]; reflexivity. Qed.
+
+Definition op_ops (us : list uop) : list (string * string) := map (fun u => (uo_name u, uo_str u)) us.
+Definition op_req (u : uop) := request_of [] (set_doc (uo_method u) (uo_str u)).
+Definition J (b : bool) (u : uop) (m' : pmethod) : Prop :=
+  forall C, (b = true -> lookup (const_name (uo_name u)) C = Some (uo_str u)) -> request_of C m' = op_req u.
+
+Lemma std_set_doc : forall m s, std_body m = true ->
+  std_body (set_doc m s) = true /\
+  exists on rest vars, forall C, request_of C (set_doc m s) = Some (s, on, rest, vars).
+Proof.
+  intros m s H. unfold std_body, set_doc, request_of in *. simpl.
+  destruct (m_body m) as [|s0 b]; [discriminate|]. destruct s0; try discriminate.
+  destruct b as [|s1 b]; [discriminate|]. destruct s1; try discriminate.
+  destruct b as [|s2 r]; [discriminate|].
+  destruct s2; try discriminate; destruct q; try discriminate; simpl; rewrite H;
+    (split; [reflexivity|]); do 3 eexists; intros C; apply String.eqb_eq in H; subst;
+    rewrite String.eqb_refl; reflexivity.
+Qed.
+
+Lemma apply_classes_estates : forall cs ps ps', apply_classes ps cs = Some ps' -> estates ps' = estates ps.
+Proof.
+  induction cs as [|c r IH]; intros ps ps' H; simpl in H; [inversion H; reflexivity|].
+  destruct (apply_hook ps HResultClass (OClass c)) as [[ps1 o1]|] eqn:E; [|discriminate].
+  rewrite (IH _ _ H). exact (apply_estates_plain _ HResultClass _ _ _ eq_refl E).
+Qed.
+
+Lemma gen_op_J : forall ps u ps' m',
+  gen_op ps u = Some (ps', m') -> List.length (estates ps) <= 1 -> std_body (uo_method u) = true ->
+  J (bE (estates ps)) u m' /\ estates ps' = map (fun st => ex_record st (uo_name u, uo_str u)) (estates ps).
+Proof.
+  intros ps u ps' m' H Hl Hstd. unfold gen_op in H.
+  destruct (apply_classes ps (uo_classes u)) as [ps1|] eqn:E1; [|discriminate].
+  destruct (apply_hook ps1 HResultModule _) as [[ps2 o2]|] eqn:E2; [|discriminate].
+  destruct (apply_hook ps2 (HOpStr (uo_name u)) _) as [[ps3 o3]|] eqn:E3; [|discriminate].
+  destruct (apply_opstr _ _ _ _ _ E3) as [-> He3].
+  destruct (apply_hook ps3 (HClientMethod (uo_name u) (uo_kind u)) _) as [[ps4 o4]|] eqn:E4; [|discriminate].
+  pose proof (apply_classes_estates _ _ _ E1) as He1.
+  pose proof (apply_estates_plain _ HResultModule _ _ _ eq_refl E2) as He2.
+  pose proof (apply_estates_plain _ (HClientMethod (uo_name u) (uo_kind u)) _ _ _ eq_refl E4) as He4.
+  assert (He : estates ps3 = map (fun st => ex_record st (uo_name u, uo_str u)) (estates ps)) by (rewrite He3, He2, He1; reflexivity).
+  assert (Hl3 : List.length (estates ps3) <= 1) by (rewrite He, map_length; exact Hl).
+  destruct (apply_method _ _ _ _ _ _ Hl3 E4) as [m1 [-> Hm]]. inversion H; subst ps4 m1.
+  split; [|rewrite He4; exact He].
+  destruct (std_set_doc _ (uo_str u) Hstd) as [Hstd' [on [rest [vars Hreq]]]].
+  destruct Hm as [[Hnil ->]|[st [Hst Hex]]].
+  - intros C _. unfold op_req. rewrite !Hreq. reflexivity.
+  - intros C HC. unfold op_req.
+    assert (Hb : bE (estates ps) = true).
+    { rewrite He in Hst. destruct (estates ps); [discriminate|reflexivity]. }
+    rewrite (Hreq []).
+    eapply extract_request_unchanged; [exact Hstd'|exact Hex|apply Hreq|].
+    intros c Hc. simpl.
+    rewrite He in Hst. destruct (estates ps) as [|st0 [|]]; try discriminate. inversion Hst; subst st.
+    simpl in Hc. rewrite lookup_dict_set, String.eqb_refl in Hc. inversion Hc; subst. apply HC. exact Hb.
+Qed.
+
+Lemma gen_ops_J : forall us ps ps' ms,
+  gen_ops ps us = Some (ps', ms) -> List.length (estates ps) <= 1 ->
+  Forall (fun u => std_body (uo_method u) = true) us ->
+  Forall2 (J (bE (estates ps))) us ms /\
+  estates ps' = map (fun st => ex_record_all st (op_ops us)) (estates ps).
+Proof.
+  induction us as [|u r IH]; intros ps ps' ms H Hl Hstd; simpl in H.
+  - inversion H; subst. split; [constructor|]. simpl. rewrite map_id. reflexivity.
+  - destruct (gen_op ps u) as [[ps1 m]|] eqn:E1; [|discriminate].
+    destruct (gen_ops ps1 r) as [[ps2 ms2]|] eqn:E2; [|discriminate]. inversion H; subst.
+    inversion Hstd; subst.
+    destruct (gen_op_J _ _ _ _ E1 Hl H2) as [HJ He1].
+    assert (Hl1 : List.length (estates ps1) <= 1) by (rewrite He1, map_length; exact Hl).
+    destruct (IH _ _ _ E2 Hl1 H3) as [HF He2].
+    split.
+    + constructor; [exact HJ|]. rewrite He1, bE_map in HF. exact HF.
+    + rewrite He2, He1, map_map. reflexivity.
+Qed.
+
+Lemma Forall2_J_map : forall b us ms C,
+  Forall2 (J b) us ms ->
+  (forall u, In u us -> b = true -> lookup (const_name (uo_name u)) C = Some (uo_str u)) ->
+  map (request_of C) ms = map op_req us.
+Proof.
+  intros b us ms C H. induction H as [|u m us' ms' HJ HF IH]; intros HC; [reflexivity|].
+  simpl. rewrite (HJ C (HC u (or_introl eq_refl))), IH; [reflexivity|].
+  intros u0 Hu0. apply HC. right; exact Hu0.
+Qed.
+
+Lemma written_modules_estates : forall ps,
+  written_modules ps = flat_map (fun st => if ex_written st then [ex_operations_module st] else []) (estates ps).
+Proof.
+  induction ps as [|p r IH]; [reflexivity|]. rewrite estates_cons, flat_map_app, <- IH.
+  destruct p; simpl; rewrite ?app_nil_r; reflexivity.
+Qed.
+
+Definition init_ok (ps : list plugin) : Prop :=
+  forall st, In st (estates ps) -> ex_gqls st = [] /\ ex_vars st = [] /\ ex_written st = false.
+
+(* no plugin list (ExtractOperations configured at most once, freshly constructed) changes what any method
+   sends: the document (resolved through the operations module that was written), operationName, the call
+   and the variables are those of the unplugged method *)
+Theorem request_unchanged_package : forall ps u p,
+  List.length (estates ps) <= 1 -> init_ok ps ->
+  Forall (fun o => std_body (uo_method o) = true) (u_ops u) ->
+  NoDup (map const_name (map uo_name (u_ops u))) ->
+  generate ps u = Some p ->
+  map (request_of (List.concat (pk_operations p))) (cm_methods (pk_client p)) = map op_req (u_ops u).
+Proof.
+  intros ps u p Hl Hinit Hstd Hnd H. unfold generate in H.
+  destruct (gen_ops ps (u_ops u)) as [[ps1 ms]|] eqn:E1; [|discriminate].
+  destruct (apply_classes ps1 (u_fragment_classes u)) as [ps2|] eqn:E2; [|discriminate].
+  destruct (apply_hook ps2 HFragmentsModule _) as [[ps3 o3]|] eqn:E3; [|discriminate].
+  destruct (apply_hook ps3 HClientModule _) as [[ps4 o4]|] eqn:E4; [|discriminate].
+  destruct (apply_client_requests _ _ _ _ E4) as [c [-> Hc]]. simpl in Hc.
+  destruct (apply_hook ps4 HInitModule _) as [[ps5 o5]|] eqn:E5; [|discriminate].
+  destruct (apply_init _ _ _ _ E5) as [[i' ->] He5]. inversion H; subst p; clear H. simpl.
+  destruct (gen_ops_J _ _ _ _ E1 Hl Hstd) as [HF He1].
+  pose proof (apply_classes_estates _ _ _ E2) as He2.
+  pose proof (apply_estates_plain _ HFragmentsModule _ _ _ eq_refl E3) as He3.
+  pose proof (apply_estates_plain _ HClientModule _ _ _ eq_refl E4) as He4.
+  rewrite Hc. eapply Forall2_J_map; [exact HF|].
+  intros u0 Hu0 Hb.
+  rewrite written_modules_estates, He5, He4, He3, He2, He1.
+  destruct (estates ps) as [|st0 [|]] eqn:Ees; [discriminate|clear Hl|simpl in Hl; lia].
+  assert (Hin0 : In st0 (estates ps)) by (rewrite Ees; left; reflexivity).
+  destruct (Hinit st0 Hin0) as [Hg [Hv Hw]]. clear Hin0 Hinit Ees.
+  simpl. rewrite app_nil_r.
+  destruct st0 as [mn g v w]; simpl in *; subst.
+  change (ex_operations_module (set_written ?x)) with (ex_operations_module x).
+  apply extract_same_strings.
+  - replace (map fst (op_ops (u_ops u))) with (map uo_name (u_ops u))
+      by (unfold op_ops; rewrite map_map; reflexivity). exact Hnd.
+  - unfold op_ops. apply in_map_iff. exists u0. split; [reflexivity|exact Hu0].
 Qed.
